@@ -3,7 +3,7 @@
    them through both interpreters (same architecture as CheckParse.v / Refine.v) and the entry points.
    Complete: every construct of [texpr] is covered, no exclusion. *)
 From Coq Require Import List NArith ZArith Arith Bool Lia.
-From PT Require Import Model.Base Model.Stack Model.Texpr Model.SliceSpec Model.Sem.
+From PT Require Import Model.Base Model.Stack Model.Texpr Model.SliceSpec Model.Sem Model.Tok Model.Tokens.
 From PT Require Import Proofs.SubInputOps.
 Import ListNotations.
 
@@ -1305,4 +1305,130 @@ Proof.
   - intros cut ss c. apply i_skip_until_bound.
   - apply i_span_ok in H. apply H.
   - apply i_span_ok in H. apply H.
+Qed.
+
+(* ---------------------------------------------------------------- non-vacuity *)
+
+(* "x" "e-acute" " " "a" "b" "y": the Span 1..6 is "e-acute ab"; implicit whitespace, a stack push, a
+   skip_until, a negative predicate that looks at the cut-off end, EOI at b = 6 < length = 7 *)
+Definition ex_s : list byte := [120; 195; 169; 32; 97; 98; 121]%N.
+Definition ex_body : texpr :=
+  TSeq SkInh [TSoi; TAny; TPush (TStr [97%N]); TSkipUntil [[98%N]]; TStr [98%N]; TNeg TAny; TEoi].
+Definition ex_env (I : inp) (cut : bool) : env :=
+  mk_env I (fun _ => mk_rdef None EmBoth ex_body) (SkipRep (TStr [32%N])) (fun _ _ => false) 99%N true cut true.
+
+Example subinput_nonvacuous :
+  let E2 := ex_env (inp_of_span ex_s 1 6) true in
+  let E0 := ex_env (inp_of_str (sub_slice ex_s 1 6)) true in
+  valid_range ex_s 1 6 /\ env_agree ex_s 1 6 E2 E0 /\ e_su_cut E2 = true /\ e_su_cut E0 = true /\
+  sub_slice ex_s 1 6 = [195; 169; 32; 97; 98]%N /\
+  try_parse_partial E0 10 0%N =
+    Ok (5, NRule 0%N (Some (NSeq [([NAtomicRep []], NSoi);
+                                  ([NAtomicRep []], NChar CkAny 233%N);
+                                  ([NAtomicRep [NStr]], NPush NStr);
+                                  ([NAtomicRep []], NSpanned KSkip 4 4);
+                                  ([NAtomicRep []], NStr);
+                                  ([NAtomicRep []], NNeg);
+                                  ([NAtomicRep []], NEoi)])) (Some (0, 5)))
+       (mk_state (mk_stack [(3, 4)] [] []) [EExit 0%N 0 true; EPolEnd; EPol false; EEnter 0%N 0]) /\
+  try_parse_partial E2 10 0%N =
+    Ok (6, NRule 0%N (Some (NSeq [([NAtomicRep []], NSoi);
+                                  ([NAtomicRep []], NChar CkAny 233%N);
+                                  ([NAtomicRep [NStr]], NPush NStr);
+                                  ([NAtomicRep []], NSpanned KSkip 5 5);
+                                  ([NAtomicRep []], NStr);
+                                  ([NAtomicRep []], NNeg);
+                                  ([NAtomicRep []], NEoi)])) (Some (1, 6)))
+       (mk_state (mk_stack [(4, 5)] [] []) [EExit 0%N 1 true; EPolEnd; EPol false; EEnter 0%N 1]).
+Proof.
+  cbv zeta. split; [|split; [|split; [|split; [|split; [|split]]]]].
+  - unfold valid_range. repeat split; try reflexivity; cbn; lia.
+  - unfold env_agree, sub_of. repeat split.
+  - reflexivity.
+  - reflexivity.
+  - vm_compute. reflexivity.
+  - vm_compute. reflexivity.
+  - vm_compute. reflexivity.
+Qed.
+
+(* the defect that was repaired (F3): while skip_until compared against text running to the end of the
+   parent string, a needle straddling b was found on the Span but not on the fresh text *)
+Lemma subinput_refuted_before_fix :
+  exists s a b E2 E0 e,
+    valid_range s a b /\ env_agree s a b E2 E0 /\ e_su_cut E2 = false /\ e_su_cut E0 = false /\
+    tparse E2 2 true e (0 + a) (shift_state a st0) <> shift_pres a (tparse E0 2 true e 0 st0) /\
+    tcheck E2 2 true e (0 + a) (shift_state a st0) <> shift_cres a (tcheck E0 2 true e 0 st0).
+Proof.
+  exists [120; 120; 97; 98]%N, 0, 3.
+  exists (ex_env (inp_of_span [120; 120; 97; 98]%N 0 3) false).
+  exists (ex_env (inp_of_str (sub_slice [120; 120; 97; 98]%N 0 3)) false).
+  exists (TSkipUntil [[97; 98]%N]).
+  split; [|split; [|split; [|split; [|split]]]].
+  - unfold valid_range. repeat split; try reflexivity; cbn; lia.
+  - unfold env_agree, sub_of. repeat split.
+  - reflexivity.
+  - reflexivity.
+  - vm_compute. intros H. discriminate H.
+  - vm_compute. intros H. discriminate H.
+Qed.
+
+(* ---------------------------------------------------------------- what the Pairs API shows of the tree *)
+
+Fixpoint shift_tok (a : nat) (t : tok) : tok :=
+  match t with Tok r s e cs => Tok r (s + a) (e + a) (map (shift_tok a) cs) end.
+
+(* the token tree of a shifted node is the shifted token tree (the two environments share the rules) *)
+Lemma tokens_shift E2 E0 a :
+  e_rules E2 = e_rules E0 ->
+  forall t, tokens E2 (shift_node a t) = map (shift_tok a) (tokens E0 t).
+Proof.
+  intros Hr. fix IH 1. intros t.
+  destruct t as [ |s e|k c| | |k|k s e|items|m i t1|o|bd items|items|t1| |t1| |two|items|x y| |r content sp];
+    try reflexivity.
+  - (* NSeq *)
+    rewrite shift_node_seq. cbn [tokens].
+    induction items as [|[sk t1] items IHi]; [reflexivity|].
+    cbn [map flat_map shift_item fst snd]. rewrite !map_app, IHi, (IH t1). f_equal. f_equal.
+    induction sk as [|x sk IHs]; [reflexivity|].
+    cbn [map flat_map]. rewrite map_app, (IH x), IHs. reflexivity.
+  - (* NChoice *) cbn [shift_node tokens]. apply IH.
+  - (* NOpt *) destruct o as [t1|]; [|reflexivity]. cbn [shift_node tokens]. apply IH.
+  - (* NRep *)
+    rewrite shift_node_rep. cbn [tokens].
+    induction items as [|[sk t1] items IHi]; [reflexivity|].
+    cbn [map flat_map shift_item fst snd]. rewrite !map_app, IHi, (IH t1). f_equal. f_equal.
+    induction sk as [|x sk IHs]; [reflexivity|].
+    cbn [map flat_map]. rewrite map_app, (IH x), IHs. reflexivity.
+  - (* NAtomicRep *)
+    rewrite shift_node_arep. cbn [tokens].
+    induction items as [|x items IHs]; [reflexivity|].
+    cbn [map flat_map]. rewrite map_app, (IH x), IHs. reflexivity.
+  - (* NPush *) cbn [shift_node tokens]. apply IH.
+  - (* NArr *)
+    rewrite shift_node_arr. cbn [tokens].
+    induction items as [|x items IHs]; [reflexivity|].
+    cbn [map flat_map]. rewrite map_app, (IH x), IHs. reflexivity.
+  - (* NPair *) cbn [shift_node tokens]. rewrite map_app, (IH x), (IH y). reflexivity.
+  - (* NRule *)
+    cbn [shift_node tokens]. unfold has_children. rewrite Hr.
+    destruct (r_emis (e_rules E0 r)).
+    + destruct sp as [[s e]|]; [|reflexivity]. cbn [option_map shift_span fst snd map shift_tok].
+      destruct (r_atom (e_rules E0 r)) as [[|]|]; try reflexivity;
+        (destruct content as [c|]; [|reflexivity]); rewrite (IH c); reflexivity.
+    + destruct content as [c|]; [|reflexivity]. apply IH.
+    + destruct sp as [[s e]|]; [|reflexivity]. cbn [option_map shift_span fst snd map shift_tok].
+      destruct (r_atom (e_rules E0 r)) as [[|]|]; try reflexivity;
+        (destruct content as [c|]; [|reflexivity]); rewrite (IH c); reflexivity.
+Qed.
+
+(* a successful full parse of the sub-input exposes exactly the shifted tokens of the fresh parse *)
+Theorem subinput_tokens s a b E2 E0 fuel r t st :
+  valid_range s a b -> env_agree s a b E2 E0 -> e_su_cut E2 = true -> e_su_cut E0 = true ->
+  try_parse E0 fuel r = Ok t st ->
+  exists t2 st2, try_parse E2 fuel r = Ok t2 st2 /\ tokens E2 t2 = map (shift_tok a) (tokens E0 t).
+Proof.
+  intros HV HE H2 H0 Hp.
+  destruct (subinput_entry_points s a b E2 E0 fuel r HV HE H2 H0) as (_ & _ & Hf & _).
+  rewrite Hp in Hf. cbn [shift_tres shift_res_with] in Hf.
+  eexists _, _. split; [exact Hf|]. apply tokens_shift. eapply agree_rules. exact HE.
 Qed.
